@@ -252,6 +252,8 @@ func implC15(line string) string {
 		return withVM(func(vm *otto.Otto) string { return implJS(vm, f[1], f[2]) })
 	case "call":
 		return withVM(func(vm *otto.Otto) string { return implCall(vm, f) })
+	case "jsh":
+		return withVM(func(vm *otto.Otto) string { return implJSH(vm, f[1], f[2], f[3]) })
 	}
 	return "bad-op"
 }
@@ -574,6 +576,200 @@ func genJS(c *h.Ctx, base []string, bd []float64) {
 		g := goContainer(r, 1+r.Intn(3))
 		op := []string{"export", "export", "toBoolean", "view"}[r.Intn(4)]
 		c.Add("go "+op+" "+g, "go:"+op, "shape:container")
+	}
+}
+
+// ---------------------------------------------------------------- heap graphs (sharing and cycles)
+
+func refTok(t string) (int, bool) {
+	if len(t) > 1 && t[0] == 'R' {
+		if n, err := strconv.Atoi(t[1:]); err == nil {
+			return n, true
+		}
+	}
+	return 0, false
+}
+
+// buildHeap creates one JavaScript object per node (first all objects, then their members, so that
+// references may point anywhere: shared and cyclic graphs) and returns their Values.
+func buildHeap(vm *otto.Otto, heap string) []otto.Value {
+	if heap == "-" {
+		return nil
+	}
+	nodes := strings.Split(heap, ";")
+	vals := make([]otto.Value, len(nodes))
+	for i, n := range nodes {
+		src := "({})"
+		if strings.HasPrefix(n, "A(") {
+			src = "new Array(0)"
+		}
+		v, err := vm.Run(src)
+		if err != nil {
+			panic(err)
+		}
+		vals[i] = v
+	}
+	member := func(l *lexer) (otto.Value, bool) {
+		if l.peek() == "H" {
+			l.next()
+			return otto.Value{}, false
+		}
+		if a, ok := refTok(l.peek()); ok {
+			l.next()
+			if a >= len(vals) {
+				panic("token syntax: dangling reference")
+			}
+			return vals[a], true
+		}
+		return l.buildJS(vm), true
+	}
+	for i, n := range nodes {
+		l := lex(n)
+		kind := l.next()
+		l.expect("(")
+		o := vals[i].Object()
+		idx := 0
+		for l.peek() != ")" {
+			if kind == "A" {
+				v, present := member(l)
+				if present {
+					if err := o.Set(strconv.Itoa(idx), v); err != nil {
+						panic(err)
+					}
+				}
+				idx++
+			} else {
+				kb, err := keyBytes(l.next())
+				if err != nil {
+					panic("token syntax: key")
+				}
+				l.expect(",")
+				v, _ := member(l)
+				if err := o.Set(string(kb), v); err != nil {
+					panic(err)
+				}
+			}
+			l.expect(",")
+		}
+		if kind == "A" {
+			if err := o.Set("length", idx); err != nil {
+				panic(err)
+			}
+		}
+	}
+	return vals
+}
+
+func implJSH(vm *otto.Otto, op, root, heap string) string {
+	vals := buildHeap(vm, heap)
+	var v otto.Value
+	if a, ok := refTok(root); ok {
+		v = vals[a]
+	} else {
+		v = buildJS(vm, root)
+	}
+	res := func(x otto.Value) int {
+		for i, hv := range vals {
+			if hv == x {
+				return i
+			}
+		}
+		return -1
+	}
+	switch op {
+	case "export":
+		e, err := v.Export()
+		if err != nil {
+			return errTok(err)
+		}
+		return treeTokR(e, res)
+	}
+	return "bad-op"
+}
+
+// genHeaps: object graphs with sharing (DAGs: every reference points to a lower address) and cycles.
+func genHeaps(c *h.Ctx, base []string, bd []float64) {
+	r := c.Rng
+	for _, l := range []string{
+		"R1 A(i64:1,i64:2,i64:3,);O(6669727374,R0,7365636f6e64,R0,)", // {first:r, second:r}
+		"R1 A(s:61,s:62,);A(R0,R0,)",                                 // [r, r]
+		"R2 A(i64:1,);O(63,R0,);O(61,R0,62,R1,)",                     // {a:r, b:{c:r}}
+		"R2 A(i64:1,);A(R0,);A(R1,R0,)",                              // [[r], r]
+		"R1 O(61,i64:1,);O(70,R0,71,R0,)",                            // {p:o, q:o}
+		"R1 O(61,i64:1,);A(R0,R0,R0,)",                               // [o,o,o]
+		"R3 A();A(R0,R0,);O(78,R1,79,R0,);A(R2,R1,R0,)",              // shared empty array at three depths
+		"R0 A(R0,)", "R0 O(73656c66,R0,)", "R1 A(R1,);O(61,R0,)", "R1 O(62,R1,);A(R0,i64:1,)",
+		"R2 A(i64:1,);O(61,R0,62,R2,);A(R1,R0,)", // a cycle next to a shared array
+		"R1 A(H,i64:1,);A(R0,R0,)", "R1 A(u,);O(61,R0,62,u,63,R0,)",
+		"R2 A(A(i64:1,),);A(A(s:61,),);A(R0,R1,)", // type clash across shared nodes
+		"i64:1 -", "A(i64:1,) -",
+	} {
+		c.Add("jsh export "+l, "jsh:export", "jsh:fixed")
+	}
+	leaf := func() string {
+		switch r.Intn(8) {
+		case 0:
+			return "u"
+		case 1:
+			return "n"
+		case 2:
+			return h.BytesTok([]string{"a", "b", ""}[r.Intn(3)])
+		case 3:
+			return "f64:" + h.F64Hex([]float64{1.5, 0, -2}[r.Intn(3)])
+		case 4:
+			return []string{"b:0", "b:1"}[r.Intn(2)]
+		case 5:
+			return []string{"A()", "O()", "A(i64:1,)", "O(61,s:78,)", "G(L(int,0,int:1))"}[r.Intn(5)]
+		}
+		return fmt.Sprintf("i64:%d", r.Intn(4))
+	}
+	for i := 0; i < c.N(8000, 500000); i++ {
+		n := 1 + r.Intn(6)
+		cyclic := r.Chance(25)
+		var nodes []string
+		for a := 0; a < n; a++ {
+			m := r.Intn(4)
+			isArr := r.Chance(55)
+			b := "O("
+			if isArr {
+				b = "A("
+			}
+			used := map[string]bool{}
+			for j := 0; j < m; j++ {
+				var e string
+				switch {
+				case isArr && r.Chance(4):
+					b += "H,"
+					continue
+				case cyclic && r.Chance(45):
+					e = fmt.Sprintf("R%d", r.Intn(n)) // anywhere: forward, backward, self
+				case a > 0 && r.Chance(60):
+					// prefer few targets so that the same object is met several times
+					e = fmt.Sprintf("R%d", r.Intn(a)%(1+r.Intn(3)))
+					if t, _ := refTok(e); t >= a {
+						e = "R0"
+					}
+				default:
+					e = leaf()
+				}
+				if isArr {
+					b += e + ","
+				} else {
+					k := jsKeys[r.Intn(len(jsKeys))]
+					if used[k] {
+						continue
+					}
+					used[k] = true
+					b += keyTok(k) + "," + e + ","
+				}
+			}
+			nodes = append(nodes, b+")")
+		}
+		key := "jsh:dag"
+		if cyclic {
+			key = "jsh:cyclic"
+		}
+		c.Add(fmt.Sprintf("jsh export R%d %s", n-1, strings.Join(nodes, ";")), "jsh:export", key)
 	}
 }
 
@@ -903,4 +1099,5 @@ func genC15(c *h.Ctx) {
 	}
 	genJS(c, base, bd)
 	genCalls(c)
+	genHeaps(c, base, bd)
 }
